@@ -24,6 +24,16 @@ pub fn predicate(name: &str, case: &Case, v: &Violation) -> bool {
         "zero_filled_sector" => {
             case.corruptions.len() == 1 && case.corruptions[0].kind == "zero512"
         }
+        // The only fault of the case is an I/O error on the manifest's fsync or write.
+        "io_error_on_manifest_sync_or_write" => {
+            case.op_faults.is_empty()
+                && case.io_faults.len() == 1
+                && case.io_faults[0].path.contains("manifest")
+                && matches!(
+                    case.io_faults[0].class,
+                    crate::interpose::Class::Sync | crate::interpose::Class::Write
+                )
+        }
         other => {
             let _ = (case, v);
             eprintln!("HARNESS-ERROR unknown known-finding predicate {other}");
